@@ -175,7 +175,7 @@ def run(ctx):
     results = zoo.run_pool(zoo.run_decode_job, jobs)
 
     # ---- model requests ----
-    req = list(mat_lines)
+    req = []
     look = {}
     for job, res in zip(jobs, results):
         code, n, cname = codes[job['code']]
@@ -189,7 +189,7 @@ def run(ctx):
                 mq = job['decoder'][1][0]
                 look[(job['id'], k, 'naive')] = len(req)
                 req.append('naive %s %d %s %s' % (cname, n, '_' if mq is None else str(mq), r['syndrome']))
-    out = ctx.model('dec', req, timeout=2400)
+    out = zoo.model_parallel(ctx, 'dec', req, prefix=mat_lines)
 
     tables = {}
     kern = []
